@@ -925,7 +925,7 @@ func (w *world) runBatch(b batch) {
 				switch {
 				case isTooLarge(o.Err) && e.Deliver == -1:
 				case o.Err == nil:
-					v.fail("important-ack-ref-after-buffer-release", "%s: important transfer to a process that does not exist reported success after %v (acknowledgement of another message was taken for this one)", e, o.Dur)
+					v.fail("important-ok-but-not-delivered:"+e.Mode, "%s: important transfer to a process that does not exist reported success after %v", e, o.Dur)
 				case o.Err == gen.ErrTimeout && slow(id):
 					noteSlow(e, o)
 				case o.Err == gen.ErrTimeout:
@@ -1330,7 +1330,7 @@ func main() {
 }
 
 func emitHeader() {
-	hk.Rule("case = world (direct | pool 3/5 | relay with chunking 1,7,8,9,4095,4096,4097,cycle,prng) x direction x addressing (pid,name,alias) x kind (send, important send, call, important call, event) x size list x compression setting; every packet carries a unique id, the oracle joins the global reception log of all instrumented processes of all nodes with the senders' ledgers. Non-trivial iff measured: relay wrote more chunks than frames (seg) / average chunk < 8-byte header (hdrcut), a delivered payload exceeded the 4096-byte initial receive buffer (grew), wire bytes < payload bytes (z), an important transfer was decided by the remote acknowledgement (ack/nack), a transfer was refused as too large, frames spread over pooled links. distinct = scenario x world class x direction x addressing/kind x compression class x measured flags")
+	hk.Rule("case = world (direct pool 1 with decoy node C | pool 2 with a link closed and re-dialled | pool 3/5 | relay with chunking 1,7,8,9,4095,4096,4097,cycle,prng, with and without pauses | MaxMessageSize 10000 (4096, 70000)) x direction x addressing (pid, name, atom-cached name, alias; unknown pid/name/alias; terminated; full mailbox) x kind (send, important send, call, important call, event to link/monitor subscribers) x size list (byte by byte around 2/4/8/16 KiB and around the size limit, up to 1 MiB, 5 MiB thorough; seeded log-uniform mixes) x compression (off | gzip/zlib/lzw x level x threshold, via process options or setters) x concurrency (1 sender, several senders, hundreds of one-shot acknowledged senders, seeded delays at receive-queue / mailbox yield points). Every packet carries a unique id; the oracle joins the global reception log of all instrumented processes of all nodes with the senders' ledgers. Non-trivial iff measured: relay wrote more chunks than frames (seg) / average chunk < 8-byte header (hdrcut), a delivered payload exceeded the 4096-byte initial receive buffer (grew), wire bytes < payload bytes (z), an important transfer was decided by the remote acknowledgement (ack) or the remote reason (nack), a transfer was refused as too large (toolarge), frames spread over pooled links (spread). distinct = scenario x world class x direction x addressing/kind/size class x compression class x measured flags")
 	hk.Assume("a timeout reported by SendImportant/CallImportant (gen.DefaultRequestTimeout, 5 s) is held against the framework only when the message itself reached its handler within half that time (a quarter, and a reply of at most 4 KiB, for requests); plain calls use a 30 s timeout")
 	hk.Assume("the three nodes share one OS process (one lib.Buffer pool, one scheduler); TCP is loopback")
 	hk.Assume("relay chunking is what the relay wrote; the kernel may coalesce adjacent chunks before the receiving node reads them (an inter-chunk pause is used for tiny chunks)")
